@@ -91,9 +91,14 @@ func (c *Client) MarkSeen(name, id string) error {
 // MarkSeenWithContext marks the specified message as having been read.
 func (c *Client) MarkSeenWithContext(ctx context.Context, name, id string) error {
 	uri := "/api/v1/mailbox/" + url.QueryEscape(name) + "/" + id
-	err := c.doJSON(ctx, "PATCH", uri, nil)
+	// The server only marks the message when the request body says so.
+	resp, err := c.do(ctx, "PATCH", uri, []byte(`{"seen":true}`))
 	if err != nil {
 		return err
+	}
+	_ = resp.Body.Close()
+	if resp.StatusCode != http.StatusOK {
+		return fmt.Errorf("PATCH for %q, unexpected %v: %s", uri, resp.StatusCode, resp.Status)
 	}
 	return nil
 }
